@@ -1,32 +1,76 @@
 //! View-tree encoding of the C06 ops (one word, no spaces) and the structure a view denotes.
 //!
-//!   node := 'T' hex ';'  |  'E' tag ';' attr* '>' node* '<'
-//!   attr := 'A' hex ';' hex ';'   .attr(name, String)
-//!         | 'B' hex ';' ('0'|'1') .attr(name, bool)
-//!         | 'C' hex ';'           .class(String)
-//!         | 'D' hex ';' ('0'|'1') .class((name, bool))
-//!         | 'S' hex ';'           .style(String)
-//!         | 'K' hex ';' hex ';'   .style((name, value))
-//!         | 'H' hex ';'           .inner_html(String)
-//! hex = lower-case hex of the UTF-8 bytes (may be empty); tag = [a-z0-9-]+.
+//!   node := 'T' hex ';'                      text child, `String`
+//!         | 't' ty ':' hex ';'               text child of string type ty ∈ str String Arc Cow CowB Oco fn
+//!         | 'P' ty ':' hex ';'               primitive child (char, u8 … f64, bool, IpAddr, NonZero…); hex = Display text
+//!         | 'E' tag ';' attr* '>' node* '<'  element
+//!         | K ity ':' node* '<'              child container, K ∈
+//!               V Vec<ity>   Y [ity; N]   W StaticVec<ity>   U tuple   F Fragment (ity = *)
+//!               O Some(node) : Option<ity>   N None : Option<ity>
+//!               L Either::<ity, AnyView>::Left(node)   R Either::<AnyView, ity>::Right(node)
+//!         | 'Z'                              the unit view `()`
+//!   ity  := S String | s &'static str | a Arc<str> | w Cow<'static,str> | o Oco<'static,str> | c char | i i32
+//!         | q Option<String> | v Vec<String> | * AnyView (anything, built recursively)
+//!   attr := 'A' hex ';' hex ';'              .attr(name, String)
+//!         | 'a' opt ty ':' hex ';' hex ';'   .attr(name, value : ty), opt: '=' plain, '?' Some(value), '-' None
+//!         | 'B' hex ';' bit                  .attr(name, bool)
+//!         | 'C' hex ';' | 'c' opt ty ':' hex ';'            .class(String | ty)
+//!         | 'D' hex ';' bit | 'd' hex ';' bit               .class((name, bool | move || bool))
+//!         | 'S' hex ';' | 's' opt ty ':' hex ';'            .style(String | ty)
+//!         | 'K' hex ';' hex ';' | 'k' opt ty ':' hex ';' hex ';'   .style((name, String | ty))
+//!         | 'H' hex ';' | 'h' opt ty ':' hex ';'            .inner_html(String | ty)
+//! hex = lower-case hex of the UTF-8 bytes (may be empty); tag = [a-z0-9-]+; ty = [A-Za-z0-9]+.
 use crate::html::{self, Tree};
+
+/// value type of an attribute / class / style position
+#[derive(Clone, Debug, PartialEq)]
+pub struct Ty {
+    /// '=' the value itself, '?' `Some(value)`, '-' `None`
+    pub opt: char,
+    pub ty: String,
+}
+
+impl Ty {
+    pub fn string() -> Ty {
+        Ty { opt: '=', ty: "String".into() }
+    }
+    pub fn is_none(&self) -> bool {
+        self.opt == '-'
+    }
+    fn is_default(&self) -> bool {
+        self.opt == '=' && self.ty == "String"
+    }
+}
 
 #[derive(Clone, Debug, PartialEq)]
 pub enum Attr {
-    Plain(String, String),
+    Plain(String, String, Ty),
     Bool(String, bool),
-    Class(String),
-    ClassToggle(String, bool),
-    Style(String),
-    StyleKV(String, String),
-    InnerHtml(String),
+    Class(String, Ty),
+    /// name, on, through a closure
+    ClassToggle(String, bool, bool),
+    Style(String, Ty),
+    StyleKV(String, String, Ty),
+    InnerHtml(String, Ty),
 }
 
 #[derive(Clone, Debug, PartialEq)]
 pub enum Node {
-    Text(String),
+    Text { ty: String, s: String },
+    Prim { ty: String, s: String },
     Elem { tag: String, attrs: Vec<Attr>, kids: Vec<Node> },
+    Cont { kind: char, ity: char, kids: Vec<Node> },
+    Unit,
 }
+
+impl Node {
+    pub fn text(s: &str) -> Node {
+        Node::Text { ty: "String".into(), s: s.into() }
+    }
+}
+
+pub const CONT_KINDS: &str = "VYWUFONLR";
+pub const ITEM_TYS: &str = "Ssawociqv*";
 
 pub fn hx(s: &str) -> String {
     s.bytes().map(|b| format!("{:02x}", b)).collect()
@@ -41,14 +85,38 @@ fn unhx(s: &str) -> Option<String> {
     String::from_utf8(bytes?).ok()
 }
 
+fn enc_ty(o: &mut String, k: char, dflt: char, t: &Ty) {
+    if t.is_default() {
+        o.push(dflt);
+    } else {
+        o.push(k);
+        o.push(t.opt);
+        o.push_str(&t.ty);
+        o.push(':');
+    }
+}
+
 pub fn encode(nodes: &[Node]) -> String {
     let mut o = String::new();
     for n in nodes {
         match n {
-            Node::Text(s) => {
-                o.push('T');
+            Node::Text { ty, s } => {
+                if ty == "String" {
+                    o.push('T');
+                } else {
+                    o.push_str(&format!("t{ty}:"));
+                }
                 o.push_str(&hx(s));
                 o.push(';');
+            }
+            Node::Prim { ty, s } => o.push_str(&format!("P{ty}:{};", hx(s))),
+            Node::Unit => o.push('Z'),
+            Node::Cont { kind, ity, kids } => {
+                o.push(*kind);
+                o.push(*ity);
+                o.push(':');
+                o.push_str(&encode(kids));
+                o.push('<');
             }
             Node::Elem { tag, attrs, kids } => {
                 o.push('E');
@@ -56,13 +124,30 @@ pub fn encode(nodes: &[Node]) -> String {
                 o.push(';');
                 for a in attrs {
                     match a {
-                        Attr::Plain(n, v) => o.push_str(&format!("A{};{};", hx(n), hx(v))),
+                        Attr::Plain(n, v, t) => {
+                            enc_ty(&mut o, 'a', 'A', t);
+                            o.push_str(&format!("{};{};", hx(n), hx(v)));
+                        }
                         Attr::Bool(n, b) => o.push_str(&format!("B{};{}", hx(n), *b as u8)),
-                        Attr::Class(v) => o.push_str(&format!("C{};", hx(v))),
-                        Attr::ClassToggle(n, b) => o.push_str(&format!("D{};{}", hx(n), *b as u8)),
-                        Attr::Style(v) => o.push_str(&format!("S{};", hx(v))),
-                        Attr::StyleKV(n, v) => o.push_str(&format!("K{};{};", hx(n), hx(v))),
-                        Attr::InnerHtml(v) => o.push_str(&format!("H{};", hx(v))),
+                        Attr::Class(v, t) => {
+                            enc_ty(&mut o, 'c', 'C', t);
+                            o.push_str(&format!("{};", hx(v)));
+                        }
+                        Attr::ClassToggle(n, b, f) => {
+                            o.push_str(&format!("{}{};{}", if *f { 'd' } else { 'D' }, hx(n), *b as u8))
+                        }
+                        Attr::Style(v, t) => {
+                            enc_ty(&mut o, 's', 'S', t);
+                            o.push_str(&format!("{};", hx(v)));
+                        }
+                        Attr::StyleKV(n, v, t) => {
+                            enc_ty(&mut o, 'k', 'K', t);
+                            o.push_str(&format!("{};{};", hx(n), hx(v)));
+                        }
+                        Attr::InnerHtml(v, t) => {
+                            enc_ty(&mut o, 'h', 'H', t);
+                            o.push_str(&format!("{};", hx(v)));
+                        }
                     }
                 }
                 o.push('>');
@@ -80,9 +165,9 @@ struct D<'a> {
 }
 
 impl<'a> D<'a> {
-    fn field(&mut self) -> Option<&'a str> {
+    fn until(&mut self, stop: u8) -> Option<&'a str> {
         let start = self.i;
-        while *self.s.get(self.i)? != b';' {
+        while *self.s.get(self.i)? != stop {
             self.i += 1;
         }
         let r = std::str::from_utf8(&self.s[start..self.i]).ok()?;
@@ -90,7 +175,7 @@ impl<'a> D<'a> {
         Some(r)
     }
     fn hex(&mut self) -> Option<String> {
-        unhx(self.field()?)
+        unhx(self.until(b';')?)
     }
     fn bit(&mut self) -> Option<bool> {
         let b = *self.s.get(self.i)?;
@@ -101,25 +186,54 @@ impl<'a> D<'a> {
             _ => None,
         }
     }
+    fn tyname(&mut self) -> Option<String> {
+        let t = self.until(b':')?;
+        if t.is_empty() || !t.bytes().all(|b| b.is_ascii_alphanumeric()) {
+            return None;
+        }
+        Some(t.to_string())
+    }
+    fn ty(&mut self) -> Option<Ty> {
+        let opt = *self.s.get(self.i)? as char;
+        self.i += 1;
+        if !"=?-".contains(opt) {
+            return None;
+        }
+        Some(Ty { opt, ty: self.tyname()? })
+    }
     fn nodes(&mut self, top: bool) -> Option<Vec<Node>> {
         let mut out = vec![];
         loop {
-            match self.s.get(self.i).copied() {
-                None => return if top { Some(out) } else { None },
-                Some(b'<') => {
-                    if top {
+            let Some(b) = self.s.get(self.i).copied() else {
+                return if top { Some(out) } else { None };
+            };
+            self.i += 1;
+            match b {
+                b'<' => return if top { None } else { Some(out) },
+                b'T' => out.push(Node::Text { ty: "String".into(), s: self.hex()? }),
+                b't' => out.push(Node::Text { ty: self.tyname()?, s: self.hex()? }),
+                b'P' => out.push(Node::Prim { ty: self.tyname()?, s: self.hex()? }),
+                b'Z' => out.push(Node::Unit),
+                k if CONT_KINDS.as_bytes().contains(&k) => {
+                    let ity = *self.s.get(self.i)? as char;
+                    self.i += 1;
+                    if !ITEM_TYS.contains(ity) || *self.s.get(self.i)? != b':' {
                         return None;
                     }
                     self.i += 1;
-                    return Some(out);
+                    let kids = self.nodes(false)?;
+                    let arity_ok = match k {
+                        b'O' | b'L' | b'R' => kids.len() == 1,
+                        b'N' => kids.is_empty(),
+                        _ => true,
+                    };
+                    if !arity_ok {
+                        return None;
+                    }
+                    out.push(Node::Cont { kind: k as char, ity, kids });
                 }
-                Some(b'T') => {
-                    self.i += 1;
-                    out.push(Node::Text(self.hex()?));
-                }
-                Some(b'E') => {
-                    self.i += 1;
-                    let tag = self.field()?.to_string();
+                b'E' => {
+                    let tag = self.until(b';')?.to_string();
                     if tag.is_empty()
                         || !tag.bytes().all(|b| b.is_ascii_lowercase() || b.is_ascii_digit() || b == b'-')
                     {
@@ -131,13 +245,34 @@ impl<'a> D<'a> {
                         self.i += 1;
                         attrs.push(match k {
                             b'>' => break,
-                            b'A' => Attr::Plain(self.hex()?, self.hex()?),
+                            b'A' => Attr::Plain(self.hex()?, self.hex()?, Ty::string()),
+                            b'a' => {
+                                let t = self.ty()?;
+                                Attr::Plain(self.hex()?, self.hex()?, t)
+                            }
                             b'B' => Attr::Bool(self.hex()?, self.bit()?),
-                            b'C' => Attr::Class(self.hex()?),
-                            b'D' => Attr::ClassToggle(self.hex()?, self.bit()?),
-                            b'S' => Attr::Style(self.hex()?),
-                            b'K' => Attr::StyleKV(self.hex()?, self.hex()?),
-                            b'H' => Attr::InnerHtml(self.hex()?),
+                            b'C' => Attr::Class(self.hex()?, Ty::string()),
+                            b'c' => {
+                                let t = self.ty()?;
+                                Attr::Class(self.hex()?, t)
+                            }
+                            b'D' => Attr::ClassToggle(self.hex()?, self.bit()?, false),
+                            b'd' => Attr::ClassToggle(self.hex()?, self.bit()?, true),
+                            b'S' => Attr::Style(self.hex()?, Ty::string()),
+                            b's' => {
+                                let t = self.ty()?;
+                                Attr::Style(self.hex()?, t)
+                            }
+                            b'K' => Attr::StyleKV(self.hex()?, self.hex()?, Ty::string()),
+                            b'k' => {
+                                let t = self.ty()?;
+                                Attr::StyleKV(self.hex()?, self.hex()?, t)
+                            }
+                            b'H' => Attr::InnerHtml(self.hex()?, Ty::string()),
+                            b'h' => {
+                                let t = self.ty()?;
+                                Attr::InnerHtml(self.hex()?, t)
+                            }
                             _ => return None,
                         });
                     }
@@ -169,23 +304,28 @@ pub fn expected_attrs(attrs: &[Attr]) -> Vec<(String, String)> {
     let mut styles: Option<String> = None;
     for a in attrs {
         match a {
-            Attr::Plain(n, v) => out.push((n.clone(), v.clone())),
+            Attr::Plain(_, _, t) if t.is_none() => {}
+            Attr::Plain(n, v, _) => out.push((n.clone(), v.clone())),
             Attr::Bool(n, true) => out.push((n.clone(), String::new())),
             Attr::Bool(_, false) => {}
-            Attr::Class(v) => classes.get_or_insert_with(Vec::new).push(v.clone()),
-            Attr::ClassToggle(n, on) => {
+            // `.class(None)` still is a (blank) item of the class list
+            Attr::Class(v, t) => {
+                classes.get_or_insert_with(Vec::new).push(if t.is_none() { String::new() } else { v.clone() })
+            }
+            Attr::ClassToggle(n, on, _) => {
                 classes.get_or_insert_with(Vec::new).push(if *on { n.clone() } else { String::new() })
             }
-            Attr::Style(v) => {
+            Attr::Style(_, t) | Attr::StyleKV(_, _, t) if t.is_none() => {}
+            Attr::Style(v, _) => {
                 let s = styles.get_or_insert_with(String::new);
                 s.push_str(v);
                 s.push(';');
             }
-            Attr::StyleKV(n, v) => {
+            Attr::StyleKV(n, v, _) => {
                 let s = styles.get_or_insert_with(String::new);
                 s.push_str(&format!("{n}:{v};"));
             }
-            Attr::InnerHtml(_) => {}
+            Attr::InnerHtml(..) => {}
         }
     }
     if let Some(c) = classes {
@@ -198,33 +338,77 @@ pub fn expected_attrs(attrs: &[Attr]) -> Vec<(String, String)> {
     out
 }
 
-/// the DOM a list of sibling views is meant to denote (see `structNode` in Model/Html.lean)
-pub fn expected(nodes: &[Node]) -> Vec<Tree> {
-    let mut out = vec![];
-    let mut prev_text = false;
+pub fn inner_of(attrs: &[Attr]) -> String {
+    attrs
+        .iter()
+        .filter_map(|a| match a {
+            Attr::InnerHtml(h, t) if !t.is_none() => Some(h.as_str()),
+            _ => None,
+        })
+        .collect()
+}
+
+/// the strings directly in a child list (through containers, not into elements)
+pub fn direct_text(nodes: &[Node], out: &mut String) {
     for n in nodes {
         match n {
-            Node::Text(s) => {
-                if prev_text {
+            Node::Text { s, .. } | Node::Prim { s, .. } => out.push_str(s),
+            Node::Cont { kids, .. } => direct_text(kids, out),
+            _ => {}
+        }
+    }
+}
+
+fn exp(nodes: &[Node], prev_text: &mut bool, out: &mut Vec<Tree>) {
+    for n in nodes {
+        match n {
+            Node::Text { s, .. } => {
+                if *prev_text {
                     out.push(Tree::Comment(String::new()));
                 }
                 out.push(Tree::Text(if s.is_empty() { " ".into() } else { s.clone() }));
-                prev_text = true;
+                *prev_text = true;
             }
+            Node::Prim { s, .. } => {
+                if *prev_text {
+                    out.push(Tree::Comment(String::new()));
+                }
+                if !s.is_empty() {
+                    out.push(Tree::Text(s.clone()));
+                }
+                *prev_text = true;
+            }
+            Node::Unit => {
+                out.push(Tree::Comment(String::new()));
+                *prev_text = false;
+            }
+            Node::Cont { kind, kids, .. } => match kind {
+                // `None` is a placeholder comment, a `Vec` ends with a marker comment
+                'N' => {
+                    out.push(Tree::Comment(String::new()));
+                    *prev_text = false;
+                }
+                // the 0-tuple is the unit view
+                'U' if kids.is_empty() => {
+                    out.push(Tree::Comment(String::new()));
+                    *prev_text = false;
+                }
+                'V' => {
+                    exp(kids, prev_text, out);
+                    out.push(Tree::Comment(String::new()));
+                    *prev_text = false;
+                }
+                _ => exp(kids, prev_text, out),
+            },
             Node::Elem { tag, attrs, kids } => {
-                let inner: String = attrs
-                    .iter()
-                    .filter_map(|a| if let Attr::InnerHtml(h) = a { Some(h.as_str()) } else { None })
-                    .collect();
+                let inner = inner_of(attrs);
                 let k = if TACHYS_VOID.contains(&tag.as_str()) {
                     vec![]
                 } else if !inner.is_empty() {
                     html::parse(&inner).unwrap_or_default()
                 } else if TACHYS_RAW.contains(&tag.as_str()) {
-                    let t: String = kids
-                        .iter()
-                        .filter_map(|k| if let Node::Text(s) = k { Some(s.as_str()) } else { None })
-                        .collect();
+                    let mut t = String::new();
+                    direct_text(kids, &mut t);
                     if t.is_empty() {
                         vec![]
                     } else {
@@ -234,9 +418,19 @@ pub fn expected(nodes: &[Node]) -> Vec<Tree> {
                     expected(kids)
                 };
                 out.push(Tree::Elem { tag: tag.clone(), attrs: expected_attrs(attrs), kids: k });
-                prev_text = false;
+                *prev_text = false;
             }
         }
     }
+}
+
+/// the DOM a list of sibling views is meant to denote (see `vStruct` in Model/Html.lean): a string
+/// is one text node (`" "` for the empty string), separated from a preceding string by a marker
+/// comment; containers contribute their items (a `Vec` also its trailing marker, `None`/`()` a
+/// placeholder comment)
+pub fn expected(nodes: &[Node]) -> Vec<Tree> {
+    let mut out = vec![];
+    let mut prev = false;
+    exp(nodes, &mut prev, &mut out);
     out
 }
